@@ -19,6 +19,15 @@ from .repo import Repo, FuncInfo, ClassInfo
 from .contracts import Registry, Contract, LoopSpec
 
 
+def SStore(a, i, v):
+    """Store with the same-index chain collapsed (Store(Store(a,i,x),i,y) == Store(a,i,y))."""
+    while z3.is_app(a) and a.decl().kind() == z3.Z3_OP_STORE and a.arg(1).eq(i):
+        a = a.arg(0)
+    if z3.is_app(v) and v.decl().kind() == z3.Z3_OP_SELECT and v.arg(0).eq(a) and v.arg(1).eq(i):
+        return a
+    return z3.Store(a, i, v)
+
+
 class NeedFork(Exception):
     def __init__(self, n):
         self.n = n
@@ -206,6 +215,7 @@ class Engine:
         self.quick_calls = 0
         self.paths = 0
         self.loop_ids: dict = {}
+        self.unverified_paths: list = []
         self.line_sort_hook = None
         if specs_src:
             tree = ast.parse(specs_src)
@@ -460,8 +470,6 @@ class Engine:
     # ------------------------------------------------------------------ heap access
     def get_field(self, st: State, obj: VObj, field, node=None) -> V:
         ft = self.field_type(obj.cls, field)
-        if ft.kind == "ext":
-            return st.new_ext(ft.name, {})
         if scalar_opt(ft):
             owner = self.field_owner(obj.cls, field)
             mv = st.fmap(owner, field, sort_of(ft.args[0]))
@@ -500,26 +508,24 @@ class Engine:
     def set_field(self, st: State, obj: VObj, field, val: V, node=None):
         ft = self.field_type(obj.cls, field)
         owner = self.field_owner(obj.cls, field)
-        if ft.kind == "ext":
-            return
         if scalar_opt(ft):
             ln = getattr(node, "lineno", 0)
             mn = st.fmap(owner, field + "?", z3.BoolSort())
             mv = st.fmap(owner, field, sort_of(ft.args[0]))
             if isinstance(val, VNone):
-                st.heap[("F", owner, field + "?")] = z3.Store(mn, obj.ref, z3.BoolVal(True))
+                st.heap[("F", owner, field + "?")] = SStore(mn, obj.ref, z3.BoolVal(True))
             elif isinstance(val, VOpt):
-                st.heap[("F", owner, field + "?")] = z3.Store(mn, obj.ref, val.none)
-                st.heap[("F", owner, field)] = z3.Store(mv, obj.ref, self.unwrap(st, val.inner, ft.args[0]))
+                st.heap[("F", owner, field + "?")] = SStore(mn, obj.ref, val.none)
+                st.heap[("F", owner, field)] = SStore(mv, obj.ref, self.unwrap(st, val.inner, ft.args[0]))
             else:
-                st.heap[("F", owner, field + "?")] = z3.Store(mn, obj.ref, z3.BoolVal(False))
-                st.heap[("F", owner, field)] = z3.Store(mv, obj.ref, self.unwrap(st, val, ft.args[0]))
+                st.heap[("F", owner, field + "?")] = SStore(mn, obj.ref, z3.BoolVal(False))
+                st.heap[("F", owner, field)] = SStore(mv, obj.ref, self.unwrap(st, val, ft.args[0]))
             st.writes.append((("F", owner, field), obj.ref, ln))
             st.writes.append((("F", owner, field + "?"), obj.ref, ln))
             return
         m = st.fmap(owner, field, sort_of(ft))
         term = self.unwrap(st, val, ft)
-        st.heap[("F", owner, field)] = z3.Store(m, obj.ref, term)
+        st.heap[("F", owner, field)] = SStore(m, obj.ref, term)
         st.writes.append((("F", owner, field), obj.ref, getattr(node, "lineno", 0)))
 
     def list_len(self, st: State, l) -> z3.ArithRef:
@@ -564,6 +570,9 @@ class Engine:
             if n == 0:
                 return self.fresh_value(st, l.elem if l.elem != TAny else TInt)
             return self.ite_values(st, [(j == k, items[k]) for k in range(n)])
+        if st.spec_mode:
+            # in specifications subscripts are mathematical (no wrap-around of negative indices)
+            return self.list_get_raw(st, l, z3.simplify(idx))
         n = self.list_len(st, l)
         j = z3.simplify(self.norm_index(st, n, idx))
         self.require(st, z3.And(j >= 0, j < n), "IndexError", node, "list index")
@@ -626,13 +635,13 @@ class Engine:
         es = sort_of(l.elem)
         em = st.eltmap(es)
         term = self.unwrap(st, val, l.elem)
-        st.heap[("ELT", sort_name(es))] = z3.Store(em, l.ref, z3.Store(z3.Select(em, l.ref), j, term))
+        st.heap[("ELT", sort_name(es))] = SStore(em, l.ref, z3.Store(z3.Select(em, l.ref), j, term))
         st.writes.append((("ELT", sort_name(es)), l.ref, getattr(node, "lineno", 0)))
 
     def new_list(self, st: State, elem: T, n=None, prefix="lst") -> VList:
         ref = st.new_ref(prefix)
         if n is not None:
-            st.heap[("LEN",)] = z3.Store(st.lenmap(), ref, n)
+            st.heap[("LEN",)] = SStore(st.lenmap(), ref, n)
         return VList(ref, elem)
 
     def list_append(self, st: State, l, val: V, node=None):
@@ -646,8 +655,8 @@ class Engine:
         em = st.eltmap(es)
         term = self.unwrap(st, val, l.elem)
         em = st.eltmap(es)
-        st.heap[("ELT", sort_name(es))] = z3.Store(em, l.ref, z3.Store(z3.Select(em, l.ref), n, term))
-        st.heap[("LEN",)] = z3.Store(st.lenmap(), l.ref, n + 1)
+        st.heap[("ELT", sort_name(es))] = SStore(em, l.ref, z3.Store(z3.Select(em, l.ref), n, term))
+        st.heap[("LEN",)] = SStore(st.lenmap(), l.ref, n + 1)
         ln = getattr(node, "lineno", 0)
         st.writes.append((("ELT", sort_name(es)), l.ref, ln))
         st.writes.append((("LEN",), l.ref, ln))
@@ -665,7 +674,7 @@ class Engine:
         arr = z3.Select(st.eltmap(es), l.ref)
         for k, it in enumerate(items):
             arr = z3.Store(arr, z3.IntVal(k), self.unwrap(st, it, elem))
-        st.heap[("ELT", sort_name(es))] = z3.Store(st.eltmap(es), l.ref, arr)
+        st.heap[("ELT", sort_name(es))] = SStore(st.eltmap(es), l.ref, arr)
         return l
 
     def materialize_var(self, st: State, name, elem=None):
@@ -821,6 +830,8 @@ class Engine:
             return VFunc("builtin", name=name)
         if name in self.b.type_names:
             return VType(name)
+        if name == "NotImplemented":
+            return VExt("NotImplemented", 8999)
         raise Unsupported(f"unknown name {name}", node)
 
     def global_value(self, st, r, name, node):
@@ -1368,6 +1379,17 @@ class Engine:
                 st.env, st.module = saved_env, saved_mod
         # nested def: executed inline with its defining frame as parent
         env = self.bind_params(st, fnode, args, kwargs, node)
+        if st.spec_mode:
+            frames = list(st.ghost.get("frames", []))
+            frames.append(self.find_def_env(st, fv))
+            saved_frames = st.ghost.get("frames", [])
+            st.ghost = dict(st.ghost)
+            st.ghost["frames"] = frames
+            env["$parent"] = len(frames) - 1
+            try:
+                return self.spec_body(st, fnode.body, env)
+            finally:
+                st.ghost["frames"] = saved_frames
         return self.inline_body(st, fnode, env, node, parent_env=self.find_def_env(st, fv), module=fv.module,
                                 key=getattr(fv, "key", None))
 
@@ -1670,6 +1692,8 @@ class Engine:
         if c.fresh_result and isinstance(res, (VObj, VList, VDict)):
             st.assume(res.ref > pre.alloc)
         for nm, text in c.ensures.items():
+            if c.caller_ensures is not None and nm not in c.caller_ensures:
+                continue  # not needed by any caller's proof: keeps the callers' queries small (still proved for the callee)
             if self.mentions_trace(text):
                 continue  # statements about the callee's own output events are not usable by callers
             st.assume(self.eval_clause(st, text, env, fn.module, old_state=pre, extra={"result": res}))
@@ -1709,13 +1733,13 @@ class Engine:
             if isinstance(base, VClass):
                 ft = self.reg.classes.get(base.cls.name, {}).get("@" + expr.attr)
                 m = st.fmap(base.cls.key, "@" + expr.attr, sort_of(ft))
-                st.heap[("F", base.cls.key, "@" + expr.attr)] = z3.Store(m, z3.IntVal(0), st.fresh("hv", sort_of(ft)))
+                st.heap[("F", base.cls.key, "@" + expr.attr)] = SStore(m, z3.IntVal(0), st.fresh("hv", sort_of(ft)))
                 return
             ft = self.field_type(base.cls, expr.attr)
             owner = self.field_owner(base.cls, expr.attr)
             m = st.fmap(owner, expr.attr, sort_of(ft))
             nv = st.fresh("hv_" + expr.attr, sort_of(ft))
-            st.heap[("F", owner, expr.attr)] = z3.Store(m, base.ref, nv)
+            st.heap[("F", owner, expr.attr)] = SStore(m, base.ref, nv)
             st.writes.append((("F", owner, expr.attr), base.ref, getattr(node, "lineno", 0)))
             if ft.kind in ("obj", "list", "dict", "opt"):
                 pass
@@ -1725,8 +1749,8 @@ class Engine:
             if isinstance(v, VCList):
                 raise Unsupported("havoc of concrete list")
             es = sort_of(v.elem)
-            st.heap[("LEN",)] = z3.Store(st.lenmap(), v.ref, st.fresh("hv_len", z3.IntSort()))
-            st.heap[("ELT", sort_name(es))] = z3.Store(st.eltmap(es), v.ref,
+            st.heap[("LEN",)] = SStore(st.lenmap(), v.ref, st.fresh("hv_len", z3.IntSort()))
+            st.heap[("ELT", sort_name(es))] = SStore(st.eltmap(es), v.ref,
                                                        st.fresh("hv_elt", z3.ArraySort(z3.IntSort(), es)))
             ln = getattr(node, "lineno", 0)
             st.writes.append((("LEN",), v.ref, ln))
@@ -1783,6 +1807,15 @@ class Engine:
                 outs.append((s, Outcome("raise", e.exc, e.node or stmt)))
             except DeadPath:
                 pass
+            except Drift:
+                raise
+            except Unsupported as u:
+                cc = self.cur_contract
+                if cc is None or not cc.tolerate_unsupported or getattr(self, "discovery", 0):
+                    raise
+                note = f"path dropped (unsupported: {u.reason}, line {getattr(u.node, 'lineno', '?')}) - left to the bounded stand-in"
+                if note not in self.unverified_paths:
+                    self.unverified_paths.append(note)
         self.paths += len(outs)
         return outs
 
@@ -1934,7 +1967,7 @@ class Engine:
             if ft is None:
                 raise Unsupported(f"store to class attribute {base.cls.name}.{attr} (declare '@{attr}')", node)
             m = st.fmap(base.cls.key, "@" + attr, sort_of(ft))
-            st.heap[("F", base.cls.key, "@" + attr)] = z3.Store(m, z3.IntVal(0), self.unwrap(st, v, ft))
+            st.heap[("F", base.cls.key, "@" + attr)] = SStore(m, z3.IntVal(0), self.unwrap(st, v, ft))
             st.writes.append((("F", base.cls.key, "@" + attr), z3.IntVal(0), getattr(node, "lineno", 0)))
             return
         if isinstance(base, VExt):
